@@ -7,6 +7,7 @@ import (
 	"errors"
 	"fmt"
 	"math/bits"
+	"sync"
 	"testing"
 	"time"
 
@@ -31,6 +32,9 @@ type c15P struct {
 	// Redeliver: after a delivery during which the getter failed (once), the same candidate is delivered again
 	// with the getter healthy: the verdict must then be the one of a first delivery
 	Redeliver bool `json:"redeliver,omitempty"`
+	// Callers > 1 (via head): that many Syncer.Head() calls overlap (the head request takes 50 ms); none of them
+	// may adopt a candidate the search refuses
+	Callers int `json:"callers,omitempty"`
 }
 
 func TestC15(t *testing.T) {
@@ -71,6 +75,19 @@ func TestC15(t *testing.T) {
 					mon.Emit(r, "bifurcate", c15P{S: 10, D: d, R: R, Cand: "canonical", FailAt: k, FailKind: fk}, "bifurcate")
 				}
 				mon.Emit(r, "bifurcate", c15P{S: 10, D: d, R: R, Cand: vh.VForgedRightLink, FailAt: 1, FailKind: fk}, "bifurcate")
+			}
+		}
+	}
+	// overlapping Head() callers sharing one head request
+	for _, d := range []uint64{1, 2, 3, 7} {
+		for _, R := range []uint64{1, 2} {
+			for _, cand := range []string{"canonical", vh.VForgedRightLink, vh.VForgedWrongLink} {
+				for _, soft := range []bool{false, true} {
+					if d == 1 && !soft {
+						continue
+					}
+					mon.Emit(r, "bifurcate", c15P{S: 10, D: d, R: R, Cand: cand, FailAt: -1, Via: "head", Soft: soft, Callers: 3}, "bifurcate")
+				}
 			}
 		}
 	}
@@ -206,9 +223,41 @@ func c15Run(c *mon.Case, p c15P) {
 				}
 				return nil, header.ErrNotFound
 			}
-			hctx, hc := context.WithTimeout(context.Background(), time.Hour)
-			got, herr := w.syn.Head(hctx)
-			hc()
+			var got H
+			var herr error
+			if p.Callers > 1 {
+				w.g.HeadDelay = 50 * time.Millisecond
+				type hres struct {
+					h   H
+					err error
+				}
+				outs := make([]hres, p.Callers)
+				var cwg sync.WaitGroup
+				for k := 0; k < p.Callers; k++ {
+					cwg.Add(1)
+					go func() {
+						defer cwg.Done()
+						time.Sleep(time.Duration(k) * 10 * time.Millisecond)
+						cctx, cc := context.WithTimeout(context.Background(), time.Hour)
+						defer cc()
+						h, err := w.syn.Head(cctx)
+						outs[k] = hres{h, err}
+					}()
+				}
+				cwg.Wait()
+				c.Count("overlapping_head_callers", p.Callers)
+				got, herr = outs[0].h, outs[0].err
+				for _, o := range outs {
+					// the verdict of the group: adopted by anybody = adopted
+					if o.err == nil && o.h != nil && o.h.Hash().String() == cand.Hash().String() {
+						got, herr = o.h, nil
+					}
+				}
+			} else {
+				hctx, hc := context.WithTimeout(context.Background(), time.Hour)
+				got, herr = w.syn.Head(hctx)
+				hc()
+			}
 			// via Head() a refusal is not an error: the previous subjective head is returned instead
 			if herr != nil {
 				verr = herr
